@@ -62,7 +62,7 @@ def greedyb (env : Env) : Nat → Ty → Bool
     | .either l r => greedyb env fuel l || greedyb env fuel r
     | .eitherRef t => greedyb env fuel t
     | .prim p => p.greedy
-    | .cell | .opaque _ | .vmStack _ => true
+    | .cell | .opaque _ | .vmStack _ | .dict _ _ | .chain _ | .dictAug _ _ _ | .custom _ _ _ | .binTree _ => true
     | _ => false
 def greedyFields (env : Env) : Nat → Fields → Bool
   | 0, _ => true
@@ -95,7 +95,7 @@ that contain one of the others are pinned as not covered by the generic theorem 
 def Prim.proved : Prim → Bool
   | .unary | .any | .varUint _ | .bigUint _ | .bigInt _ | .grams | .signedCoins | .fixedText | .anycast
   | .msgAddress | .accountStatus | .accStatusChange | .computeSkipReason | .vmCellSlice | .payloadV1toV4
-  | .snake | .bytesSnake | .text => true
+  | .snake | .bytesSnake | .text | .addrWc => true
   | _ => false
 
 def Prim.wf : Prim → Bool
@@ -136,7 +136,11 @@ def wfb (env : Env) : Ty → Bool
   | .refT t => wfRefOf t (wfb env t)
   | .prim p => p.wf && p.proved
   | .vmStack _ => false                  -- decode returns the reversed list: see `vmstack_convention`
-  | .dictE _ => true
+  | .dictE k t => (keyWidth k).isSome && wfb env k && wfb env t
+  | .dict k t => (keyWidth k).isSome && wfb env k && wfb env t
+  | .highload => true
+  | .dictAugE _ _ _ | .dictAug _ _ _ | .custom _ _ _ | .binTree _ => false   -- decode-side models: no round-trip claim
+  | .chain _ => false                    -- takes the next reference if there is one: outside the greedy/non-greedy split
   | .encErr _ => true
   | .opaque _ => false
 def wfFields (env : Env) : Fields → Bool
@@ -197,6 +201,7 @@ def Prim.inDom (p : Prim) (v : Val) : Bool :=
   | .varUint n, .int i => 0 ≤ i && natBytesLen i.toNat ≤ n - 1
   | .bigUint n, .int i => 0 ≤ i && i < 2 ^ n
   | .bigInt n, .int i => -(2 ^ (n - 1)) ≤ i && i < 2 ^ (n - 1)
+  | .addrWc, .cons (.int wc) (.cons (.bytes addr) .nil) => -128 ≤ wc && wc < 128 && addr.length == 32
   | .grams, .int i => 0 ≤ i && i < 2 ^ 64
   | .signedCoins, .int i => -(2 ^ 63) ≤ i && i < 2 ^ 63
   | .snake, .bits _ => true
@@ -230,6 +235,46 @@ def ptrCellOk (t : Ty) (x : Val) : Bool :=
   match t, x with
   | .cell, .cell c => c.ty != tyLibrary
   | _, _ => true
+
+def Val.isList : Val → Bool
+  | .nil => true
+  | .cons _ t => Val.isList t
+  | _ => false
+
+/-- the canonical dump of a dictionary: `()` when empty, else `(keys|values)` with non-empty proper lists -/
+def dictShapeOk (v : Val) : Bool :=
+  match v with
+  | .nil => true
+  | .cons ks (.cons vs .nil) => Val.isList ks && Val.isList vs && !ks.toList.isEmpty
+  | _ => false
+
+/-- strictly ascending in the order of key bits -/
+def strictlyAscending : List Hashmap.Key → Bool
+  | [] => true
+  | k :: rest => rest.all (fun k' => Hashmap.lexLt k k') && strictlyAscending rest
+
+/-- domain of a dictionary value, given the domains and the encoders of its key and value types: as many values as
+keys, every key and value in its domain; the keys listed in strictly ascending order of their encoded bits (what the
+decoder returns); every value fits a leaf next to a full-width label -/
+def dictDom (kw : Option Nat) (kin vin : Val → Bool) (kenc venc : Val → Outcome Builder) (v : Val) : Bool :=
+  match dictParts v, kw with
+  | some (ks, vs), some n =>
+    ks.length == vs.length && dictShapeOk v &&
+    ks.all kin && vs.all vin &&
+    ks.all (fun kv => match kenc kv with
+      | .ok kb => kb.refs.isEmpty
+      | _ => false) &&
+    (match mapMOutcome (fun kv => (kenc kv).bind fun kb => .ok kb.bits) ks with
+      | .ok kbits => kbits.all (·.length == n) && strictlyAscending kbits
+      | _ => false) &&
+    vs.all (fun x => match venc x with
+      | .ok vb => vb.bits.length + n + 2 + Hashmap.minBitsRequired n ≤ 1023 && vb.refs.length ≤ 4
+      | _ => false)
+  | _, _ => false
+
+def Val.isNil : Val → Bool
+  | .nil => true
+  | _ => false
 
 mutual
 /-- the value is in the domain of the type: it fits the TL-B widths and the Go representation -/
@@ -278,8 +323,15 @@ def inDom (env : Env) : Nat → Ty → Val → Bool
       | _ => false)
     | .refT t => inDom env fuel t v
     | .prim p => p.inDom v
-    | .dictE _ => (match v with
-      | .nil => true
+    | .dictE k t => dictDom (keyWidth k) (fun x => inDom env fuel k x) (fun x => inDom env fuel t x)
+        (fun x => encode env fuel k x Builder.empty) (fun x => encode env fuel t x Builder.empty) v
+    | .dict k t => dictDom (keyWidth k) (fun x => inDom env fuel k x) (fun x => inDom env fuel t x)
+        (fun x => encode env fuel k x Builder.empty) (fun x => encode env fuel t x Builder.empty) v && !v.isNil
+    | .highload => Prim.valLen v ≤ 254 && Prim.payloadDom v && (match hlToDict v with
+      | some d => inDom env fuel (.dictE (.uint 16) (.prim .any)) d
+      | none => false)
+    | .chain e => (match v with
+      | .cons x rest => inDom env fuel e x && (rest.isNil || inDom env fuel (.chain e) rest)
       | _ => false)
     | .encErr _ => true
     | _ => false
